@@ -323,6 +323,63 @@ theorem truncation_inside_message (isClient : Bool) (rng : Rng) (ms : List Rfc64
   rw [hr]
   exact ⟨by rw [h2, hall], h3, h4⟩
 
+/-- **A frame at which the connection is given up, anywhere in a conversation.**  `Terminal tail` (AslProofs): on
+    `tail` the reader returns an empty message and closes, whatever it had accumulated.  Then, both when `tail`
+    comes between messages (after any control frames) and when it comes inside a message `m` after its first
+    frame, any open continuation frames `t1` and any control frames: exactly the complete messages before it
+    are delivered, intact, once, in order; nothing of the interrupted message; closed; no fault. -/
+theorem terminal_anywhere (isClient : Bool) (rng : Rng) (ms : List Rfc6455.Msg) (cs : List Rfc6455.Ctl)
+    (tail : List UInt8) (ht : Terminal tail)
+    (hfit : ∀ x ∈ ms, MsgFits x) (hne : ∀ x ∈ ms, x.payload ≠ []) (hcs : CtlsFit cs) :
+    (let r := run { isClient := isClient, rng := rng, inp := ms.flatMap Rfc6455.Msg.bytes ++ (Rfc6455.ctlBytes cs ++ tail) }
+     r.1.filter (· ≠ []) = ms.map (·.payload) ∧ r.2.closed = true ∧ r.2.fault = false) ∧
+    (∀ (m : Rfc6455.Msg) (t1 : List Rfc6455.Frag), FragFits m.first → (∀ f ∈ t1, FragFits f) →
+      m.first.payload.length + (t1.flatMap (·.payload)).length ≤ 2147483632 →
+      let r := run { isClient := isClient, rng := rng,
+                     inp := ms.flatMap Rfc6455.Msg.bytes ++ (Rfc6455.ctlBytes m.first.before ++
+                       (Rfc6455.frame false (msgOp m) m.first.key m.first.payload ++ (Rfc6455.openBytes t1 ++
+                         (Rfc6455.ctlBytes cs ++ tail)))) }
+      r.1.filter (· ≠ []) = ms.map (·.payload) ∧ r.2.closed = true ∧ r.2.fault = false) := by
+  have hall : (ms.map (·.payload)).filter (· ≠ []) = ms.map (·.payload) := by
+    apply List.filter_eq_self.mpr
+    intro q hq
+    obtain ⟨x, hx, rfl⟩ := List.mem_map.mp hq
+    simpa using hne x hx
+  constructor
+  · intro r
+    obtain ⟨extra, c', h1, h2, h3, h4⟩ := receiveAll_terminal ms cs tail ht
+      { isClient := isClient, rng := rng, inp := ms.flatMap Rfc6455.Msg.bytes ++ (Rfc6455.ctlBytes cs ++ tail) } ⟨rfl, rfl⟩ hfit hcs rfl
+    have hr : r = (extra, c') := h1
+    rw [hr]; exact ⟨by rw [h2, hall], h3, h4⟩
+  · intro m t1 hfirst ht1 htot r
+    obtain ⟨extra, c', h1, h2, h3, h4⟩ := receiveAll_terminal_inside ms m t1 cs tail ht
+      { isClient := isClient, rng := rng,
+        inp := ms.flatMap Rfc6455.Msg.bytes ++ (Rfc6455.ctlBytes m.first.before ++
+          (Rfc6455.frame false (msgOp m) m.first.key m.first.payload ++ (Rfc6455.openBytes t1 ++ (Rfc6455.ctlBytes cs ++ tail)))) }
+      ⟨rfl, rfl⟩ hfit hfirst ht1 htot hcs rfl
+    have hr : r = (extra, c') := h1
+    rw [hr]; exact ⟨by rw [h2, hall], h3, h4⟩
+
+/-- **A reserved opcode fails the connection and never ends or splits a message** (repaired in 3e00d94): a frame
+    with opcode 3..7 or 11..15 — any FIN, masked or not, any payload that fits, followed by anything — is
+    `Terminal`; with `terminal_anywhere`: between messages or between the fragments of a message, exactly the
+    complete messages before it are delivered (`01 03 abc`, `83 00`, `80 03 def` delivers nothing, not "abc" and "def"). -/
+theorem reserved_opcode_fails_connection (fin : Bool) (op : Nat) (hop : op < 16)
+    (hres : op ≠ 0 ∧ op ≠ 1 ∧ op ≠ 2 ∧ op ≠ 8 ∧ op ≠ 9 ∧ op ≠ 10) (key : Option Rfc6455.Key) (p : List UInt8) (hp : Fits p)
+    (rest : List UInt8) : Terminal (Rfc6455.frame fin op key p ++ rest) :=
+  terminal_reserved fin op hop hres key p hp rest
+
+/-- **A Close frame with fewer than two payload bytes delivers nothing** (repaired in 10948e4), also when it arrives
+    between the fragments of a message: it is `Terminal` (`01 03 abc`, `88 00` delivers nothing, not "abc"). -/
+theorem short_close_delivers_nothing (fin : Bool) (key : Option Rfc6455.Key) (p : List UInt8) (hp : p.length < 2)
+    (rest : List UInt8) : Terminal (Rfc6455.frame fin 8 key p ++ rest) :=
+  terminal_short_close fin key p hp rest
+
+/-- a frame cut short is `Terminal` too (this is how `truncation_partial` / `truncation_inside_message` follow) -/
+theorem cut_frame_is_terminal (fin : Bool) (op : Nat) (hop : op < 16) (key : Option Rfc6455.Key) (p : List UInt8) (hp : Fits p)
+    (k : Nat) (hk0 : 0 < k) (hk : k < (Rfc6455.frame fin op key p).length) : Terminal ((Rfc6455.frame fin op key p).take k) :=
+  terminal_cut fin op hop key p hp k hk0 hk
+
 /-- the single statement for a cut at *any* byte offset `k` of a conversation: the non-empty results are
     exactly the payloads of the messages wholly before the cut.  Every cut position strictly inside a frame
     is proved above (`truncation_partial`: first frame of a message or a control frame between messages;
@@ -368,7 +425,13 @@ theorem header_value_is_field_value (name ows1 v ows2 : List UInt8)
   headerField_ows name ows1 v ows2 hn h1 h2 hv hv1 hv2
 
 /-- the request of RFC 6455 §1.2 with **no** space after the colons (and one with three) is answered with
-    the RFC's accept key: the whole server handshake of the model, evaluated by the kernel -/
+    the RFC's accept key: the whole server handshake of the model, evaluated by the kernel.
+    These are two instances, not a general statement.  Suggested by the second audit and NOT yet proved: for every
+    request line with two blanks and every well-formed header list containing `Upgrade: websocket`, a `Connection`
+    list including `Upgrade` and `Sec-WebSocket-Key: k` (any name case, any optional whitespace),
+    `serverHandshake req = serverResponse k hasProtocol` — by induction over `readHeaders`/`setHeader` from
+    `header_value_is_field_value`.  Until then the composed handshake rests on the correspondence check (`hs` op, 160
+    generated requests per quick run, python oracle for the well-formed ones). -/
 theorem handshake_without_space_sample :
     serverHandshake ("GET /chat HTTP/1.1\r\nHost:server.example.com\r\nUpgrade:websocket\r\nConnection:Upgrade\r\nSec-WebSocket-Key:dGhlIHNhbXBsZSBub25jZQ==\r\nSec-WebSocket-Version:13\r\n\r\n".toList.map (fun c => UInt8.ofNat c.toNat))
       = serverResponse [100, 71, 104, 108, 73, 72, 78, 104, 98, 88, 66, 115, 90, 83, 66, 117, 98, 50, 53, 106, 90, 81, 61, 61] false ∧
@@ -416,6 +479,9 @@ example : (run { isClient := false, rng := ⟨1, 2, 3, 4⟩, inp := [0x82, 0x7f,
 example : (run { isClient := false, rng := ⟨1, 2, 3, 4⟩, inp := [0x01, 0x03, 0x61, 0x62, 0x63] }).1 = [[]] := by decide
 -- … but a final frame with an empty payload at the very end of the stream completes its message
 example : (run { isClient := false, rng := ⟨1, 2, 3, 4⟩, inp := [0x01, 0x03, 0x61, 0x62, 0x63, 0x80, 0x00] }).1 = [[0x61, 0x62, 0x63]] := by decide
+-- reserved opcode between fragments / short Close inside a message: nothing is delivered (3e00d94, 10948e4)
+example : (run { isClient := false, rng := ⟨1, 2, 3, 4⟩, inp := [0x01, 3, 0x61, 0x62, 0x63, 0x83, 0, 0x80, 3, 0x64, 0x65, 0x66] }).1 = [[]] := by decide
+example : (run { isClient := false, rng := ⟨1, 2, 3, 4⟩, inp := [0x01, 3, 0x61, 0x62, 0x63, 0x88, 0] }).1 = [[]] := by decide
 -- a frame cut inside its payload is not delivered
 example : (run { isClient := false, rng := ⟨1, 2, 3, 4⟩, inp := [0x81, 0x14, 0x61, 0x62, 0x63] }).1 = [[]] := by decide
 
